@@ -324,6 +324,8 @@ OUTCOMES = {
     # a comment in the middle of the doctest that starts like a force-disable marker
     'pass_marker_comment': (['>>> mark("{id}")', '>>> # failing inputs are reported through the return value',
                              '>>> # SCRIPT style usage follows', '>>> print("a")', 'a'], 'passed', True),
+    # ends with sys.stdout replaced by a stream of its own: the reports of the later doctests must still appear
+    'pass_replaces_stdout': (['>>> mark("{id}")', '>>> import sys, io', '>>> sys.stdout = io.StringIO()'], 'passed', True),
     'fail_output': (['>>> mark("{id}")', '>>> print("a")', 'b'], 'failed', True),
     'fail_exc': (['>>> mark("{id}")', '>>> raise ValueError("v")'], 'failed', True),
     'fail_late': (['>>> mark("{id}")', '>>> print("a")', 'a', '>>> print("c")', 'd'], 'failed', True),
